@@ -58,12 +58,20 @@ impl TryFrom<&ctehexml::CtehexmlData> for Model {
     type Error = Error;
     fn try_from(d: &ctehexml::CtehexmlData) -> Result<Self, Self::Error> {
         let bdl = &d.bdldata;
+        #[cfg(cteenergymodel_verif)]
+        crate::verif_hooks::point("convert:entry");
         let id_maps = IdMaps::new(bdl);
 
         let cons = cons_from_bdl(bdl, &id_maps)?;
+        #[cfg(cteenergymodel_verif)]
+        crate::verif_hooks::point("convert:cons");
         let spaces = spaces_from_bdl(bdl, &id_maps)?;
         let walls = walls_from_bdl(bdl, &id_maps)?;
+        #[cfg(cteenergymodel_verif)]
+        crate::verif_hooks::point("convert:walls");
         let (windows, shades) = windows_and_shades_from_bdl(bdl, &walls, &id_maps)?;
+        #[cfg(cteenergymodel_verif)]
+        crate::verif_hooks::point("convert:windows");
         let thermal_bridges = thermal_bridges_from_bdl(bdl);
 
         // Completa metadatos desde ctehexml y el bdl
@@ -105,6 +113,8 @@ impl TryFrom<&ctehexml::CtehexmlData> for Model {
             rn_perim_insulation,
         };
 
+        #[cfg(cteenergymodel_verif)]
+        crate::verif_hooks::point("convert:meta");
         let schedules = schedules_from_bdl(bdl, &id_maps)?;
         let loads = loads_from_bdl(bdl, &id_maps)?;
         let thermostats = thermostats_from_bdl(bdl, &id_maps)?;
@@ -339,6 +349,8 @@ fn windows_and_shades_from_bdl(
     let mut shades = vec![];
 
     for win in &bdl.windows {
+        #[cfg(cteenergymodel_verif)]
+        crate::verif_hooks::point("convert:window");
         let id = uuid_from_obj(win);
         let wall = walls
             .iter()
